@@ -3,6 +3,7 @@ CONSTANTS
   Machine = "event"
   CrashPoints = FALSE
   RollFaults = FALSE
+  RollKills = FALSE
   MaxCount = 3
   Limit = 4
   MaxWrite = 6
